@@ -209,7 +209,7 @@ void UncompressedFile::write(const std::shared_ptr<LogContainer> & logContainer)
     tellgChanged.wait(lock, [&] {
         return
         m_abort ||
-        static_cast<uint32_t>(m_tellp - m_tellg) < m_bufferSize;
+        ((m_tellp - m_tellg) < m_bufferSize);
     });
 
     /* close the log container the put position lies in, so that the appended one does not overlap its unused rest */
